@@ -18,10 +18,12 @@ let dispatch fn args = match fn, args with
      | None -> "none"
      | Some (e, mo) -> hex_of_z e ^ "," ^ hex_of_z mo)
   | "tableSize", [] -> string_of_int (len perm_table)
-  | "handlePermissions", [pok; oe; ue; m; p; r] ->
-    outcome (handlePermissions (b pok) (b oe) (b ue) (z_of_hex m) (z_of_hex p) (z_of_hex r))
-  | "access", [enc; ook; uok; pok; oe; ue; m; p; r] ->
-    outcome (checkForEncryption (b enc) (b ook) (b uok) (b pok) (b oe) (b ue) (z_of_hex m) (z_of_hex p) (z_of_hex r))
+  (* opw / upw: the raw password bytes as hex pairs ("" = empty string) *)
+  | "handlePermissions", [pok; opw; upw; m; p; r] ->
+    outcome (handlePermissions (b pok) (bytes_of_hex opw) (bytes_of_hex upw) (z_of_hex m) (z_of_hex p) (z_of_hex r))
+  | "access", [enc; ook; uok; pok; opw; upw; m; p; r] ->
+    outcome (checkForEncryption (b enc) (b ook) (b uok) (b pok) (bytes_of_hex opw) (bytes_of_hex upw) (z_of_hex m) (z_of_hex p) (z_of_hex r))
+  | "noCredentials", [opw; upw] -> str_of_bool (noCredentialsSupplied (bytes_of_hex opw) (bytes_of_hex upw))
   | "specKind", [m] -> kind (spec_kind (z_of_hex m))
   | "specMustRefuse", [m; p; r] -> str_of_bool (spec_must_refuse (spec_kind (z_of_hex m)) (z_of_hex p) (z_of_hex r))
   | _ -> failwith ("unknown function " ^ fn)
